@@ -99,7 +99,9 @@ class ModelAudit:
 		self.before = self._snap()
 
 	def _behaviour(self):
-		was = self.model.training
+		# remember the mode of every sub-module (a model may be in a mixed
+		# state, e.g. eval with one layer left in train mode)
+		was = [(m, m.training) for m in self.model.modules()]
 		saved = dict(CTL.counts), CTL.armed
 		CTL.armed = None
 		try:
@@ -120,7 +122,8 @@ class ModelAudit:
 		except Exception as e:
 			return ("raise", type(e).__name__, str(e)[:200])
 		finally:
-			self.model.train(was)
+			for m, flag in was:
+				m.training = flag
 			CTL.counts, CTL.armed = saved
 
 	def _snap(self):
